@@ -44,6 +44,10 @@ static void check_same(const uint64_t* p, const uint64_t* snap, uint64_t n, cons
 }
 
 void h_api(void) {
+#ifdef __CPROVER__
+  vf_nin = 0; /* the harness' own bookkeeping is (re)initialised here: C12 runs this harness with all static storage havocked */
+  vf_nowrap = 0;
+#endif
   vf_fullmod fm;
 #if MT == 0
   vf_fullmod_init_fft64(&fm, AVX);
@@ -56,10 +60,13 @@ void h_api(void) {
 #endif
   const MODULE* mod = &fm.mod;
   /* snapshot of the module and of the precomputed objects (frame condition) */
-  vf_fullmod fm0 = fm;
+  vf_modsnap snap;
+  vf_snap(&snap, mod);
 
 #if API == 1
-  VF_ASSERT(bytes_of_vec_znx_dft(mod, RSZ) == RSZ * NN * DW * 8 || MT == 1, "bytes_of_vec_znx_dft");
+#if MT == 0
+  VF_ASSERT(bytes_of_vec_znx_dft(mod, RSZ) == RSZ * NN * DW * 8, "bytes_of_vec_znx_dft");
+#endif
   uint64_t* res = buf((uint64_t)RSZ * NN * DW);
   const uint64_t aw = vf_extent(ASZ, ASL, NN);
   uint64_t* a = buf(aw);
@@ -128,6 +135,10 @@ void h_api(void) {
   check_same(a, a0, aw, "a");
   check_same(pm, pm0, pw, "pmat");
   for (uint64_t i = (RSZ < NCOLS ? RSZ : NCOLS) * NN; i < (uint64_t)RSZ * NN; ++i) VF_ASSERT(res[i] == 0, "vmp output columns beyond ncols are exactly zero");
+#elif API == 10
+  /* sizing functions of the module: must be callable and large enough for the layout the transforms use */
+  VF_ASSERT(bytes_of_vec_znx_dft(mod, RSZ) >= (uint64_t)RSZ * NN * DW * 8, "bytes_of_vec_znx_dft covers the dft layout");
+  VF_ASSERT(bytes_of_vec_znx_big(mod, RSZ) >= (uint64_t)RSZ * NN * BW * 8, "bytes_of_vec_znx_big covers the big layout");
 #elif API == 9
   const uint64_t pw = words_of_bytes(bytes_of_vmp_pmat(mod, NROWS, NCOLS));
   uint64_t* pm = buf(pw);
@@ -143,18 +154,6 @@ void h_api(void) {
 #endif
 
   /* frame: the module, its virtual table and every precomputed object are bit-for-bit what they were */
-  {
-    const uint64_t* p = (const uint64_t*)&fm;
-    const uint64_t* q = (const uint64_t*)&fm0;
-#if MT == 0
-    const uint64_t n = (sizeof(vf_fullmod) - 2 * sizeof(q120_ntt_precomp)) / 8;
-#else
-    const uint64_t n = 0; /* ntt120: only the fields set by the harness are meaningful; compared field-wise below */
-    VF_ASSERT(fm.ntt.n == fm0.ntt.n && fm.ntt.powomega == fm0.ntt.powomega && fm.ntt.level_metadata == fm0.ntt.level_metadata, "ntt precomp untouched");
-    VF_ASSERT(fm.intt.n == fm0.intt.n && fm.intt.powomega == fm0.intt.powomega && fm.intt.level_metadata == fm0.intt.level_metadata, "intt precomp untouched");
-    VF_ASSERT(fm.mod.nn == fm0.mod.nn && fm.mod.mod.q120.p_ntt == fm0.mod.mod.q120.p_ntt && fm.mod.mod.q120.p_intt == fm0.mod.mod.q120.p_intt, "module untouched");
-#endif
-    for (uint64_t i = 0; i < n; ++i) VF_ASSERT(p[i] == q[i], "MODULE / precomputed objects are immutable");
-  }
+  vf_check_frame(&snap, mod);
   VF_REACH();
 }
